@@ -54,4 +54,5 @@ int drv_linq(void);
 int drv_sieve(void);
 int drv_world(void);
 int drv_pure(void);
+int drv_main(void);
 #endif
